@@ -236,6 +236,7 @@ def edge_facts(fn, ex, bb, taken_target):
         else:
             return []
         out.extend(bool_facts(d, truth))
+        out.extend(_bool_local_implied(fn, ex, t["discr"], truth))
         return out
     # integer / discriminant switches
     if len(vals) == 1 and not is_otherwise:
@@ -244,6 +245,43 @@ def edge_facts(fn, ex, bb, taken_target):
         for v in others:
             out.append(("Ne", d, ("const", t["dty"], v)))
     return out
+
+
+_IMPL_DEPTH = [0]
+
+
+def _bool_local_implied(fn, ex, discr, truth):
+    """`let c = a && b; if c {..}`: the short-circuit lowering assigns `c` a constant on the edges that decide it early and the last
+    operand's value in ONE block; when the branch on `c` goes the way no constant assignment can explain, execution passed through
+    that block, so every fact that dominates it (the earlier operands) holds as well."""
+    if discr["k"] == "const" or discr["place"]["p"] or _IMPL_DEPTH[0] > 3:
+        return []
+    seen, l = set(), discr["place"]["l"]
+    # follow plain copies `tmp = c`
+    for _ in range(4):
+        defs = [(bi, s) for bi, si, s in fn.stmts() if s["k"] == "assign" and s["place"]["l"] == l and not s["place"]["p"]]
+        if len(defs) == 1 and defs[0][1]["rv"]["k"] == "use" and defs[0][1]["rv"]["op"]["k"] != "const" and not defs[0][1]["rv"]["op"]["place"]["p"] \
+                and defs[0][1]["rv"]["op"]["place"]["l"] not in seen:
+            seen.add(l)
+            l = defs[0][1]["rv"]["op"]["place"]["l"]
+            continue
+        break
+    if any(t_ and t_["k"] == "call" and t_["dest"]["l"] == l and not t_["dest"]["p"] for t_ in (fn.term(b) for b in range(len(fn.blocks)))):
+        return []
+    consts, others = [], []
+    for bi, s in defs:
+        rv = s["rv"]
+        if rv["k"] == "use" and rv["op"]["k"] == "const" and rv["op"].get("v") is not None:
+            consts.append(int(rv["op"]["v"]))
+        else:
+            others.append(bi)
+    if len(others) != 1 or not consts or any(c != (0 if truth else 1) for c in consts):
+        return []
+    _IMPL_DEPTH[0] += 1
+    try:
+        return dominating_facts(fn, ex, others[0])
+    finally:
+        _IMPL_DEPTH[0] -= 1
 
 
 def bool_facts(d, truth):
